@@ -8,6 +8,7 @@ def quick8(tier): return list(_mx().QUICK_CFGS)
 def all48_thorough(tier): return _mx().all_cfgs() if tier == "thorough" else list(_mx().QUICK_CFGS)
 def san_quick(tier): return list(_mx().SAN_CFGS_ALL if tier == "thorough" else _mx().SAN_CFGS_QUICK)
 def none(tier): return []
+def cfgs4(tier): return ['gcc-O0-c++17-abacus','gcc-O2-c++17-std','clang-O1-c++17-std','clang-O3-c++17-abacus'] if tier=='quick' else list(_mx().QUICK_CFGS)
 
 COMMON_ASSUMPTIONS = [
     "x86-64 Linux, g++ 12.2 / clang++ 14 with libstdc++ 12: other targets, compilers and standard libraries are not executed",
@@ -36,4 +37,16 @@ PROPS = {
    scope=lambda t: "float->fixed over ALL 2^32 bit patterns (2 configurations quick, all thorough) and a structured subset everywhere; double->fixed over all exponents x mantissa edge patterns, exact ties and ulp-neighbours, boundary windows; fixed->float/double over S, format halfway points and a dense interval; fixed->double->fixed round trip",
    assumptions=COMMON_ASSUMPTIONS + ["the 2^64 double patterns are covered only on the structured subset described in coverage.bound",
       "property text conflict on (2^31-1) <= |x| < 2^31: the NaN clause is applied there, the round-trip clause below (DESIGN section 7)"]),
+ "C02": dict(cfgs=quick8,
+   scope=lambda t: "fixed*fixed on every pair of S(w,r)^2 (operators * and *=); fixed*n, n*fixed, fixed*=n for all 8 integral types with every 8-/16-bit value and S-shaped 32/64-bit values; complete within that bound",
+   assumptions=COMMON_ASSUMPTIONS),
+ "C03": dict(cfgs=quick8,
+   scope=lambda t: "fixed/fixed on every pair of S(w,r)^2 (operators / and /=) under a trap guard; fixed/n and fixed/=n for all 8 integral types with every 8-/16-bit value and S-shaped 32/64-bit values",
+   assumptions=COMMON_ASSUMPTIONS + ["'truncated' for fixed/integer is read as truncation toward zero (C++ division)"]),
+ "C16": dict(cfgs=quick8,
+   scope=lambda t: "a in S(w,r) x operand values of each of the ten non-fixed types (every 8-bit value, every 16-bit value in thorough, S-shaped 32/64-bit values, structured float/double patterns incl. specials) x 4 operators x {a op t, t op a, a op= t}",
+   assumptions=COMMON_ASSUMPTIONS + ["fixed op= double does not compile and is not part of the API", "double(a) is taken from the library's own conversion (judged by C05)"]),
+ "C17": dict(cfgs=cfgs4,
+   scope=lambda t: "breadth-first search over operation histories from S(2,1) seeds with an alphabet of ~500 operations to depth 2 (quick) / 3 (thorough), every transition compared with the exact value model, every algebraic law instance evaluated on implementation values at every stored state; three-operand laws on the complete cube",
+   assumptions=COMMON_ASSUMPTIONS + ["states are de-duplicated by raw value: sound because the library is stateless, equal values have equal futures"]),
 }
